@@ -1320,6 +1320,9 @@ def oracle(ctx: Ctx) -> OracleResult:
                                 'principals': principals})
     for c in AK_CORPUS:
         run_ak(c.format(k0=pl[0]), keys[0], 'a.example.com', '10.1.2.3', ['alice'] if 'cert-authority' in c else None, 'corpus')
+        if 'cert-authority' in c:
+            # a certificate naming nobody never satisfies a principals= restriction
+            run_ak(c.format(k0=pl[0]), keys[0], 'a.example.com', '10.1.2.3', [], 'corpus-no-principals')
     for i in range(ctx.n(700, 12000)):
         host = rng.choice(G.HOSTS[:8])
         addr = rng.choice(G.ADDRS4 + G.ADDRS6[:4])
@@ -1327,7 +1330,7 @@ def oracle(ctx: Ctx) -> OracleResult:
         k = rng.randrange(4)
         line, items = gen_ak_oracle_line(rng, host, addr, principal, pl[k])
         ca = any(n == 'cert-authority' for n, _v in items)
-        pr = [rng.choice([principal, 'alice', 'eve']) for _ in range(rng.choice([1, 1, 2]))] if ca else None
+        pr = [rng.choice([principal, 'alice', 'eve']) for _ in range(rng.choice([0, 1, 1, 2]))] if ca else None
         run_ak(line, keys[k], host if rng.random() < 0.8 else rng.choice(G.HOSTS[:8]),
                addr if rng.random() < 0.8 else rng.choice(G.ADDRS4), pr, 'gen')
         res.nontrivial += 1
